@@ -124,10 +124,12 @@ def load_corpus():
 
 
 def differential(c, focus, n_hist, backends, cfgs, weights=None, lengths=(4, 22), clients=('w1', 'w2'),
-                 judge=True, check_backends_equal=False, fail_rate=0.16):
+                 judge=True, check_backends_equal=False, fail_rate=0.16, directed=True):
   """Runs the tie and the property stage.  Property keys are prefixed by what failed."""
-  hists = svcgen.matrix()       # directed: every RPC on every trial / study state
-  hists += load_corpus()        # minimised past failures (defects since repaired, seeded changes) run first
+  hists = []
+  if directed:
+    hists = svcgen.matrix()       # directed: every RPC on every trial / study state
+    hists += load_corpus()        # minimised past failures (defects since repaired, seeded changes) run first
   n_hist += len(hists)
   for i in range(n_hist - len(hists)):
     # every third history: two owners whose studies share the display name (cross-owner isolation),
@@ -240,6 +242,8 @@ def differential(c, focus, n_hist, backends, cfgs, weights=None, lengths=(4, 22)
         c.prop_fail('handed-trial-not-active-or-foreign', 'SuggestTrials handed out a trial that is not ACTIVE for the asking worker (%s)' % be, ctx)
       if not v['countOK']:
         c.prop_fail('wrong-number-or-order-of-suggestions', 'SuggestTrials did not hand out min(N, own+queued+delivered)=%s trials in own/queued/new order (%s)' % (v['expectedCount'], be), ctx)
+      if not v.get('surplusOK', True):
+        c.prop_fail('delivered-suggestions-dropped-or-invented', 'after SuggestTrials the new trials of the study are not exactly the suggestions the algorithm delivered (surplus must wait as REQUESTED, nothing may be dropped) (%s)' % be, ctx)
     if focus == 'C06':
       if not v['pendingFree'] and cfgs[be].get('suggestCatchesAll') and cfgs[be].get('shortDeliveryOk'):
         c.prop_fail('operation-left-pending:' + rq['op'], 'an unfinished suggestion operation is left in the datastore after %s (%s)' % (rq['op'], be), ctx)
